@@ -1,6 +1,7 @@
 package main
 
 import (
+	"bytes"
 	"context"
 	"errors"
 	"fmt"
@@ -27,7 +28,35 @@ const (
 	kPfx2             // (int, string key | int payload), prefix 2
 	kUnit             // (int16 key | struct{} payload): rows that encode to almost nothing
 	kRLE              // (rleKey): one column whose registered codec run-length encodes, so equal keys encode to well under a byte per row
+	kPt               // (int key | point payload): a pointer-free struct VALUE column, gob-encoded (gob omits zero-valued struct fields)
+	kPKey             // (pkey key | int payload): a pointer-free struct KEY column with registered Less/Hash, gob-encoded
 )
+
+// point is a pointer-free struct value. The model payload P packs it: X = P>>16,
+// Y = P&0xffff, so inputs choose which fields are zero.
+type point struct{ X, Y int32 }
+
+// pkey is a pointer-free struct key: ordinal V <-> (A, B) = (V/3, V%3), ordered
+// lexicographically, so B is zero for every third key.
+type pkey struct{ A, B int32 }
+
+func init() {
+	frame.RegisterOps(func(s []pkey) frame.Ops {
+		return frame.Ops{
+			Less: func(i, j int) bool {
+				if s[i].A != s[j].A {
+					return s[i].A < s[j].A
+				}
+				return s[i].B < s[j].B
+			},
+			HashWithSeed: func(i int, seed uint32) uint32 {
+				return (uint32(s[i].A)*2654435761 + uint32(s[i].B)*40503) ^ seed
+			},
+		}
+	})
+}
+
+func isStructKind(k kind) bool { return k == kPt || k == kPKey }
 
 // rleKey is a key type with a user codec (frame.Ops.Encode/Decode), as the
 // frame package documents: a vector is written as (value, run length) pairs.
@@ -73,7 +102,8 @@ func init() {
 	})
 }
 
-var kindName = map[kind]string{kInt: "int", kStr: "string", kPfx2: "int+string/prefix2", kUnit: "int16+struct{}", kRLE: "rle-coded key (custom codec)"}
+var kindName = map[kind]string{kInt: "int", kStr: "string", kPfx2: "int+string/prefix2", kUnit: "int16+struct{}", kRLE: "rle-coded key (custom codec)",
+	kPt: "int key + struct{X,Y int32} value", kPKey: "struct{A,B int32} key + int value"}
 
 type row struct{ V, P int }
 
@@ -105,6 +135,10 @@ func typOf(k kind) slicetype.Type {
 		return tdesc{[]reflect.Type{tInt16, tStruct}, 1}
 	case kRLE:
 		return tdesc{[]reflect.Type{reflect.TypeOf(rleKey(0))}, 1}
+	case kPt:
+		return tdesc{[]reflect.Type{tInt, reflect.TypeOf(point{})}, 1}
+	case kPKey:
+		return tdesc{[]reflect.Type{reflect.TypeOf(pkey{}), tInt}, 1}
 	}
 	panic("kind")
 }
@@ -158,6 +192,20 @@ func buildFrame(k kind, rows []row) frame.Frame {
 			keys[i] = rleKey(r.V)
 		}
 		return frame.Slices(keys)
+	case kPt:
+		keys := make([]int, n)
+		vals := make([]point, n)
+		for i, r := range rows {
+			keys[i] = keyInt(r.V)
+			vals[i] = point{int32(r.P >> 16), int32(r.P & 0xffff)}
+		}
+		return frame.Slices(keys, vals)
+	case kPKey:
+		keys := make([]pkey, n)
+		for i, r := range rows {
+			keys[i] = pkey{int32(r.V / 3), int32(r.V % 3)}
+		}
+		return frame.Slices(keys, pay)
 	}
 	panic("kind")
 }
@@ -219,6 +267,25 @@ func decodeRows(k kind, f frame.Frame, n int, dst []row) ([]row, bool) {
 		for i := 0; i < n; i++ {
 			dst = append(dst, row{int(keys[i]), 0})
 		}
+	case kPt:
+		keys := g.Interface(0).([]int)
+		vals := g.Interface(1).([]point)
+		for i := 0; i < n; i++ {
+			x := keys[i] + 5
+			if x%3 != 0 || x < 0 || vals[i].X < 0 || vals[i].Y < 0 || vals[i].Y > 0xffff {
+				ok = false
+			}
+			dst = append(dst, row{x / 3, int(vals[i].X)<<16 | int(vals[i].Y)&0xffff})
+		}
+	case kPKey:
+		keys := g.Interface(0).([]pkey)
+		pay := g.Interface(1).([]int)
+		for i := 0; i < n; i++ {
+			if keys[i].A < 0 || keys[i].B < 0 || keys[i].B > 2 {
+				ok = false
+			}
+			dst = append(dst, row{int(keys[i].A)*3 + int(keys[i].B), pay[i]})
+		}
 	}
 	return dst, ok
 }
@@ -235,9 +302,18 @@ type chunking struct {
 	// eofWithData: the last rows are returned together with EOF; otherwise EOF
 	// comes on a separate, empty read.
 	eofWithData bool
+	// enc > 0: the upstream is an encoded stream instead: the rows are written
+	// with sliceio.NewEncodingWriter in batches of enc rows and every Read is
+	// served by one sliceio.NewDecodingReader over those bytes, decoding
+	// straight into the caller's frame (what a task output or a spill file is
+	// to the merge buffers). pat is unused.
+	enc int
 }
 
 func (c chunking) String() string {
+	if c.enc > 0 {
+		return fmt.Sprintf("encoded stream read through sliceio.NewDecodingReader, batches of %d rows", c.enc)
+	}
 	s := "pat="
 	for i, p := range c.pat {
 		if i > 0 {
@@ -278,10 +354,23 @@ type script struct {
 	afterEOF  int
 	fired     bool
 	afterErr  int
+
+	dec sliceio.Reader // ch.enc > 0: the decoding reader over the encoded rows
 }
 
 func newScript(k kind, rows []row, ch chunking, errAt int) *script {
-	return &script{src: buildFrame(k, rows), ch: ch, errAt: errAt}
+	s := &script{src: buildFrame(k, rows), ch: ch, errAt: errAt}
+	if ch.enc > 0 {
+		var buf bytes.Buffer
+		w := sliceio.NewEncodingWriter(&buf)
+		for i := 0; i < len(rows); i += ch.enc {
+			if err := w.Write(context.Background(), s.src.Slice(i, min(i+ch.enc, len(rows)))); err != nil {
+				fatalf("encoding an upstream stream: %v", err)
+			}
+		}
+		s.dec = sliceio.NewDecodingReader(&buf)
+	}
+	return s
 }
 
 func (s *script) Read(_ context.Context, out frame.Frame) (int, error) {
@@ -298,6 +387,13 @@ func (s *script) Read(_ context.Context, out frame.Frame) (int, error) {
 	if c == s.errAt {
 		s.fired = true
 		return 0, errInjected
+	}
+	if s.dec != nil {
+		n, err := s.dec.Read(context.Background(), out)
+		if err == sliceio.EOF {
+			s.done = true
+		}
+		return n, err
 	}
 	rem := s.src.Len() - s.pos
 	n := out.Len()
